@@ -9,5 +9,6 @@ cp go.mod "$T/go.mod"; cp go.sum "$T/go.sum"
 go build -modfile="$T/go.mod" -tags verif -o "$T/h" . || exit 1
 go build -modfile="$T/go.mod" -tags verif -race -o "$T/hr" . || exit 1
 go test -c -fuzz=. -modfile="$T/go.mod" -tags verif -o "$T/f.test" . || exit 1
+go build -modfile="$T/go.mod" -tags verif -cover -covermode=atomic -coverpkg=verif/harness,github.com/fluhus/biostuff/... -o "$T/hc" . || exit 1
 "$T/h" list >/dev/null || exit 1
 echo "setup ok"
